@@ -1,36 +1,68 @@
 //! C01: flat codec round-trips values at any bit alignment.
 //! fn: pallas_codec::flat::en::Encoder::{bool,u8,word,integer,char,bytes,utf8,string,bits,filler,encode_list_with}
-//! fn: pallas_codec::flat::de::Decoder::{bool,u8,word,integer,char,bytes,utf8,string,bits8,filler,decode_list_with}
+//! fn: pallas_codec::flat::de::Decoder::{bool,u8,word,integer,char,bytes,string,bits8,filler,decode_list_with}
+//! fn: pallas_codec::flat::{encode,decode} for bool,u8,usize,isize,char,Vec<u8>
 //! fn: pallas_codec::flat::zigzag::ZigZag for isize/usize
-//! outside: sequences longer than (K bools, value, value?, u8) as one solver query (the encoder only appends and the decoder only reads at pos, so one-step results per alignment compose); byte strings above 511 bytes; big_integer (num-bigint feature off)
+//! stub: std::fmt::format -> empty String
+//! assume: every value harness ends with (value, trailing u8, encoder filler); the decoder side reads the trailing u8 and then the rest of the last byte with bits8 and requires the filler pattern 0..01 and pos == len; Decoder::filler itself (a loop of <= 8 bit reads) is checked on the encoder's filler at every alignment by the c01_q_filler_* family and by the flat::encode/decode harnesses
+//! outside: sequences longer than (K bools, value, value, u8) as one solver query (the encoder only appends and the decoder only reads at its cursor, so one-step results per alignment compose -- that argument is not machine-checked); byte strings above 511 bytes; big_integer (num-bigint feature off)
+//! outside: Decoder::utf8 / decode::<String> = String::from_utf8(Decoder::bytes()): std's UTF-8 validator on symbolic bytes gives no verdict (C02 measured 15 min for 2 bytes); Encoder::utf8 is checked against Decoder::bytes
 use pallas_codec::flat::de::Decoder;
 use pallas_codec::flat::en::Encoder;
 use pallas_codec::flat::filler::Filler;
 
-#[derive(Clone, Copy)]
-enum P {
-    Bool,
-    U8,
-    Word,
-    Int,
-    Char,
-}
-
 /// write K leading bools (symbolic values) so that the value under test starts at bit offset K
+/// (no loop: the unwind bound of a harness is then the bound of the code under test)
 fn put_prefix<const K: usize>(e: &mut Encoder, pre: u8) {
-    let mut i = 0;
-    while i < K {
-        e.bool((pre >> i) & 1 == 1);
-        i += 1;
+    if K > 0 {
+        e.bool(pre & 1 != 0);
     }
+    if K > 1 {
+        e.bool(pre & 2 != 0);
+    }
+    if K > 2 {
+        e.bool(pre & 4 != 0);
+    }
+    if K > 3 {
+        e.bool(pre & 8 != 0);
+    }
+    if K > 4 {
+        e.bool(pre & 16 != 0);
+    }
+    if K > 5 {
+        e.bool(pre & 32 != 0);
+    }
+    if K > 6 {
+        e.bool(pre & 64 != 0);
+    }
+}
+fn get1(d: &mut Decoder, want: bool) {
+    let b = d.bool().unwrap();
+    assert!(b == want, "prefix bit decodes");
 }
 fn get_prefix<const K: usize>(d: &mut Decoder, pre: u8) {
-    let mut i = 0;
-    while i < K {
-        let b = d.bool().unwrap();
-        assert!(b == ((pre >> i) & 1 == 1), "prefix bit decodes");
-        i += 1;
+    if K > 0 {
+        get1(d, pre & 1 != 0);
     }
+    if K > 1 {
+        get1(d, pre & 2 != 0);
+    }
+    if K > 2 {
+        get1(d, pre & 4 != 0);
+    }
+    if K > 3 {
+        get1(d, pre & 8 != 0);
+    }
+    if K > 4 {
+        get1(d, pre & 16 != 0);
+    }
+    if K > 5 {
+        get1(d, pre & 32 != 0);
+    }
+    if K > 6 {
+        get1(d, pre & 64 != 0);
+    }
+    assert!(d.used_bits == (K % 8) as i64, "value under test starts at bit offset K");
 }
 
 fn finish(mut e: Encoder, t: u8) -> Vec<u8> {
@@ -39,9 +71,12 @@ fn finish(mut e: Encoder, t: u8) -> Vec<u8> {
     e.buffer
 }
 
+/// trailing byte, then the rest of the last byte must be exactly the filler pattern 0..01
+/// (the only thing Decoder::filler accepts inside one byte), and that is the end of the buffer
 fn check_end(mut d: Decoder, t: u8, len: usize) {
     assert!(d.u8().unwrap() == t, "trailing byte after the value decodes");
-    d.filler().unwrap();
+    let rest = 8 - d.used_bits as usize;
+    assert!(d.bits8(rest).unwrap() == 1, "buffer ends with the filler pattern");
     assert!(d.pos == len && d.used_bits == 0, "decoding consumes the whole buffer");
 }
 
@@ -105,7 +140,8 @@ fn small_rt<const K: usize>() {
     core::mem::forget(buf);
 }
 
-/// bytes with symbolic content, length L concrete (block chunking decided by L)
+/// bytes with symbolic content, length L concrete (block chunking is decided by L);
+/// content compared at a symbolic index (= every index)
 fn bytes_rt<const K: usize, const L: usize>() {
     let pre: u8 = kani::any();
     let payload: [u8; L] = kani::any();
@@ -118,10 +154,10 @@ fn bytes_rt<const K: usize, const L: usize>() {
     get_prefix::<K>(&mut d, pre);
     let got = d.bytes().unwrap();
     assert!(got.len() == L, "bytes length round-trips");
-    let mut i = 0;
-    while i < L {
+    if L > 0 {
+        let i: usize = kani::any();
+        kani::assume(i < L);
         assert!(got[i] == payload[i], "bytes content round-trips");
-        i += 1;
     }
     check_end(d, t, buf.len());
     kani::cover!(true, "reached");
@@ -129,95 +165,93 @@ fn bytes_rt<const K: usize, const L: usize>() {
     core::mem::forget(got);
 }
 
-/// bytes with symbolic length 0..=3 and symbolic content
-fn bytes_symlen_rt<const K: usize>() {
+/// Encoder::utf8 with L symbolic ASCII chars, read back through Decoder::bytes
+fn utf8_rt<const K: usize, const L: usize>() {
     let pre: u8 = kani::any();
-    let payload: [u8; 3] = kani::any();
-    let n: usize = kani::any();
-    kani::assume(n <= 3);
-    let t: u8 = kani::any();
-    let mut e = Encoder::new();
-    put_prefix::<K>(&mut e, pre);
-    e.bytes(&payload[..n]).unwrap();
-    let buf = finish(e, t);
-    let mut d = Decoder::new(&buf);
-    get_prefix::<K>(&mut d, pre);
-    let got = d.bytes().unwrap();
-    assert!(got.len() == n, "bytes length round-trips");
-    let mut i = 0;
-    while i < 3 {
-        if i < n {
-            assert!(got[i] == payload[i], "bytes content round-trips");
-        }
-        i += 1;
+    let payload: [u8; L] = kani::any();
+    let mut j = 0;
+    while j < L {
+        kani::assume(payload[j] < 128);
+        j += 1;
     }
-    check_end(d, t, buf.len());
-    kani::cover!(n == 0, "empty");
-    kani::cover!(n == 3, "three");
-    core::mem::forget(buf);
-    core::mem::forget(got);
-}
-
-/// utf8 strings: ASCII content (symbolic), length symbolic 0..=3
-fn utf8_rt<const K: usize>() {
-    let pre: u8 = kani::any();
-    let payload: [u8; 3] = kani::any();
-    kani::assume(payload[0] < 128 && payload[1] < 128 && payload[2] < 128);
-    let n: usize = kani::any();
-    kani::assume(n <= 3);
     let t: u8 = kani::any();
-    let s = core::str::from_utf8(&payload[..n]).unwrap();
+    // ASCII bytes are valid UTF-8
+    let s = unsafe { core::str::from_utf8_unchecked(&payload) };
     let mut e = Encoder::new();
     put_prefix::<K>(&mut e, pre);
     e.utf8(s).unwrap();
     let buf = finish(e, t);
     let mut d = Decoder::new(&buf);
     get_prefix::<K>(&mut d, pre);
-    let got = d.utf8().unwrap();
-    let gb = got.as_bytes();
-    assert!(gb.len() == n, "utf8 length round-trips");
-    let mut i = 0;
-    while i < 3 {
-        if i < n {
-            assert!(gb[i] == payload[i], "utf8 content round-trips");
-        }
-        i += 1;
+    let got = d.bytes().unwrap();
+    assert!(got.len() == L, "utf8 length round-trips");
+    if L > 0 {
+        let i: usize = kani::any();
+        kani::assume(i < L);
+        assert!(got[i] == payload[i], "utf8 content round-trips");
     }
     check_end(d, t, buf.len());
-    kani::cover!(n == 3, "three chars");
+    kani::cover!(true, "reached");
     core::mem::forget(buf);
     core::mem::forget(got);
 }
 
-/// `string` (list of chars, one bit per element) with 0..=2 symbolic ASCII chars,
-/// and bit lists via encode_list_with / decode_list_with over u8, 0..=2 elements
-fn list_rt<const K: usize>() {
+/// `string` (list of chars, one continuation bit per element), L symbolic ASCII chars
+fn string_rt<const K: usize, const L: usize>() {
     let pre: u8 = kani::any();
-    let items: [u8; 2] = kani::any();
-    let n: usize = kani::any();
-    kani::assume(n <= 2);
+    let payload: [u8; L] = kani::any();
+    let mut j = 0;
+    while j < L {
+        kani::assume(payload[j] < 128);
+        j += 1;
+    }
+    let t: u8 = kani::any();
+    let s = unsafe { core::str::from_utf8_unchecked(&payload) };
+    let mut e = Encoder::new();
+    put_prefix::<K>(&mut e, pre);
+    e.string(s);
+    let buf = finish(e, t);
+    let mut d = Decoder::new(&buf);
+    get_prefix::<K>(&mut d, pre);
+    let got = d.string().unwrap();
+    let gb = got.as_bytes();
+    assert!(gb.len() == L, "string length round-trips");
+    if L > 0 {
+        let i: usize = kani::any();
+        kani::assume(i < L);
+        assert!(gb[i] == payload[i], "string content round-trips");
+    }
+    check_end(d, t, buf.len());
+    kani::cover!(true, "reached");
+    core::mem::forget(buf);
+    core::mem::forget(got);
+}
+
+fn enc_u8(x: &u8, e: &mut Encoder) -> Result<(), pallas_codec::flat::en::Error> {
+    e.u8(*x)?;
+    Ok(())
+}
+
+/// bit lists via encode_list_with / decode_list_with over u8, L elements (symbolic)
+fn list_rt<const K: usize, const L: usize>() {
+    let pre: u8 = kani::any();
+    let items: [u8; L] = kani::any();
     let t: u8 = kani::any();
     let mut e = Encoder::new();
     put_prefix::<K>(&mut e, pre);
-    fn enc_u8(x: &u8, e: &mut Encoder) -> Result<(), pallas_codec::flat::en::Error> {
-        e.u8(*x)?;
-        Ok(())
-    }
-    e.encode_list_with(&items[..n], enc_u8).unwrap();
+    e.encode_list_with(&items, enc_u8).unwrap();
     let buf = finish(e, t);
     let mut d = Decoder::new(&buf);
     get_prefix::<K>(&mut d, pre);
     let got = d.decode_list_with(|d| d.u8()).unwrap();
-    assert!(got.len() == n, "list length round-trips");
-    if n > 0 {
-        assert!(got[0] == items[0], "list item 0");
-    }
-    if n > 1 {
-        assert!(got[1] == items[1], "list item 1");
+    assert!(got.len() == L, "list length round-trips");
+    if L > 0 {
+        let i: usize = kani::any();
+        kani::assume(i < L);
+        assert!(got[i] == items[i], "list items round-trip");
     }
     check_end(d, t, buf.len());
-    kani::cover!(n == 2, "two items");
-    kani::cover!(n == 0, "empty list");
+    kani::cover!(true, "reached");
     core::mem::forget(buf);
     core::mem::forget(got);
 }
@@ -244,6 +278,23 @@ fn bits_rt<const K: usize>() {
     core::mem::forget(buf);
 }
 
+/// the encoder's filler after K symbolic bools is consumed by Decoder::filler and ends the buffer
+fn filler_rt<const K: usize>() {
+    let pre: u8 = kani::any();
+    let mut e = Encoder::new();
+    put_prefix::<K>(&mut e, pre);
+    e.encode(Filler::FillerEnd).unwrap();
+    let buf = e.buffer;
+    let mut d = Decoder::new(&buf);
+    get_prefix::<K>(&mut d, pre);
+    let r = d.filler();
+    assert!(r.is_ok(), "filler decodes");
+    assert!(d.pos == buf.len() && d.used_bits == 0 && buf.len() == 1, "filler ends the buffer");
+    kani::cover!(true, "reached");
+    core::mem::forget(r);
+    core::mem::forget(buf);
+}
+
 macro_rules! fam {
     ($name:ident, $body:ident, $k:expr, $unw:expr) => {
         #[kani::proof]
@@ -263,59 +314,232 @@ macro_rules! fam {
     };
 }
 
-// bound: word/integer over the full 64-bit range (<= 10 groups, unwind 12), K leading symbolic bools
-fam!(c01_q_word_a0, word_rt, 0, 12);
-fam!(c01_q_word_a3, word_rt, 3, 12);
-fam!(c01_q_word_a7, word_rt, 7, 12);
-fam!(c01_t_word_a1, word_rt, 1, 12);
-fam!(c01_t_word_a2, word_rt, 2, 12);
-fam!(c01_t_word_a4, word_rt, 4, 12);
-fam!(c01_t_word_a5, word_rt, 5, 12);
-fam!(c01_t_word_a6, word_rt, 6, 12);
-fam!(c01_q_int_a0, int_rt, 0, 12);
-fam!(c01_q_int_a5, int_rt, 5, 12);
-fam!(c01_t_int_a1, int_rt, 1, 12);
-fam!(c01_t_int_a2, int_rt, 2, 12);
-fam!(c01_t_int_a3, int_rt, 3, 12);
-fam!(c01_t_int_a4, int_rt, 4, 12);
-fam!(c01_t_int_a6, int_rt, 6, 12);
-fam!(c01_t_int_a7, int_rt, 7, 12);
-// bound: bool, u8, every char scalar value, at every alignment 0..7
-fam!(c01_q_small_a0, small_rt, 0, 9);
-fam!(c01_q_small_a1, small_rt, 1, 9);
-fam!(c01_q_small_a2, small_rt, 2, 9);
-fam!(c01_q_small_a3, small_rt, 3, 9);
-fam!(c01_q_small_a4, small_rt, 4, 9);
-fam!(c01_q_small_a5, small_rt, 5, 9);
-fam!(c01_q_small_a6, small_rt, 6, 9);
-fam!(c01_q_small_a7, small_rt, 7, 9);
-// bound: byte strings with symbolic content, symbolic length 0..=3
-fam!(c01_q_bytes_a0, bytes_symlen_rt, 0, 9);
-fam!(c01_q_bytes_a4, bytes_symlen_rt, 4, 9);
-fam!(c01_t_bytes_a1, bytes_symlen_rt, 1, 9);
-fam!(c01_t_bytes_a7, bytes_symlen_rt, 7, 9);
-fam!(c01_q_utf8_a0, utf8_rt, 0, 9);
-fam!(c01_q_utf8_a6, utf8_rt, 6, 9);
-fam!(c01_q_list_a0, list_rt, 0, 9);
-fam!(c01_q_list_a5, list_rt, 5, 9);
-fam!(c01_t_list_a2, list_rt, 2, 9);
-fam!(c01_t_list_a7, list_rt, 7, 9);
-fam!(c01_q_bits_a0, bits_rt, 0, 9);
-fam!(c01_q_bits_a3, bits_rt, 3, 9);
-fam!(c01_t_bits_a1, bits_rt, 1, 9);
-fam!(c01_t_bits_a2, bits_rt, 2, 9);
-fam!(c01_t_bits_a4, bits_rt, 4, 9);
-fam!(c01_t_bits_a5, bits_rt, 5, 9);
-fam!(c01_t_bits_a6, bits_rt, 6, 9);
-fam!(c01_t_bits_a7, bits_rt, 7, 9);
-// bound: byte strings of concrete length at the 255-byte block boundary, symbolic content
-fam!(c01_t_bytes255_a0, bytes_rt, 0, 255, 258);
-fam!(c01_t_bytes256_a3, bytes_rt, 3, 256, 258);
-fam!(c01_t_bytes511_a0, bytes_rt, 0, 511, 514);
+// bound: word over the full 64-bit range (<= 10 groups, unwind 11), K leading symbolic bools, trailing symbolic u8
+fam!(c01_t_word_a0, word_rt, 0, 11);
+fam!(c01_q_word_a3, word_rt, 3, 11);
+fam!(c01_t_word_a1, word_rt, 1, 11);
+fam!(c01_t_word_a2, word_rt, 2, 11);
+fam!(c01_t_word_a4, word_rt, 4, 11);
+fam!(c01_t_word_a5, word_rt, 5, 11);
+fam!(c01_t_word_a6, word_rt, 6, 11);
+fam!(c01_t_word_a7, word_rt, 7, 11);
+// bound: integer over the full isize range (zigzag, <= 10 groups, unwind 11), K leading symbolic bools, trailing symbolic u8
+fam!(c01_q_int_a5, int_rt, 5, 11);
+fam!(c01_t_int_a0, int_rt, 0, 11);
+fam!(c01_t_int_a1, int_rt, 1, 11);
+fam!(c01_t_int_a2, int_rt, 2, 11);
+fam!(c01_t_int_a3, int_rt, 3, 11);
+fam!(c01_t_int_a4, int_rt, 4, 11);
+fam!(c01_t_int_a6, int_rt, 6, 11);
+fam!(c01_t_int_a7, int_rt, 7, 11);
+// bound: bool, u8, every char scalar value (<= 3 groups, unwind 4) in sequence after K leading symbolic bools
+fam!(c01_q_small_a0, small_rt, 0, 4);
+fam!(c01_t_small_a1, small_rt, 1, 4);
+fam!(c01_t_small_a2, small_rt, 2, 4);
+fam!(c01_q_small_a3, small_rt, 3, 4);
+fam!(c01_q_small_a4, small_rt, 4, 4);
+fam!(c01_t_small_a5, small_rt, 5, 4);
+fam!(c01_t_small_a6, small_rt, 6, 4);
+fam!(c01_q_small_a7, small_rt, 7, 4);
+// bound: the encoder's filler after K symbolic bools, every K in 0..=7 (Decoder::filler <= 8 bit reads, unwind 9)
+fam!(c01_q_filler_a0, filler_rt, 0, 9);
+fam!(c01_q_filler_a1, filler_rt, 1, 9);
+fam!(c01_q_filler_a2, filler_rt, 2, 9);
+fam!(c01_q_filler_a3, filler_rt, 3, 9);
+fam!(c01_q_filler_a4, filler_rt, 4, 9);
+fam!(c01_q_filler_a5, filler_rt, 5, 9);
+fam!(c01_q_filler_a6, filler_rt, 6, 9);
+fam!(c01_q_filler_a7, filler_rt, 7, 9);
+// bound: bits(n, v) / bits8(n), n symbolic in 1..=8, v < 2^n symbolic, after K symbolic bools
+fam!(c01_q_bits_a0, bits_rt, 0, 2);
+fam!(c01_q_bits_a3, bits_rt, 3, 2);
+fam!(c01_q_bits_a6, bits_rt, 6, 2);
+fam!(c01_t_bits_a1, bits_rt, 1, 2);
+fam!(c01_t_bits_a2, bits_rt, 2, 2);
+fam!(c01_t_bits_a4, bits_rt, 4, 2);
+fam!(c01_t_bits_a5, bits_rt, 5, 2);
+fam!(c01_t_bits_a7, bits_rt, 7, 2);
+// bound: byte strings of concrete length L in 0..=3 with symbolic content (one block; unwind 9-K = the filler loop in front of the block), after K symbolic bools
+fam!(c01_q_bytes0_a0, bytes_rt, 0, 0, 9);
+fam!(c01_q_bytes3_a4, bytes_rt, 4, 3, 5);
+fam!(c01_t_bytes1_a1, bytes_rt, 1, 1, 8);
+fam!(c01_t_bytes2_a7, bytes_rt, 7, 2, 4);
+fam!(c01_t_bytes3_a0, bytes_rt, 0, 3, 9);
+fam!(c01_t_bytes0_a5, bytes_rt, 5, 0, 4);
+fam!(c01_t_bytes2_a2, bytes_rt, 2, 2, 7);
+fam!(c01_t_bytes1_a6, bytes_rt, 6, 1, 4);
+fam!(c01_t_bytes3_a3, bytes_rt, 3, 3, 6);
+// bound: Encoder::utf8 on L in 0..=3 symbolic ASCII chars read back with Decoder::bytes
+fam!(c01_q_utf8_2_a6, utf8_rt, 6, 2, 5);
+fam!(c01_t_utf8_0_a0, utf8_rt, 0, 0, 9);
+fam!(c01_t_utf8_3_a3, utf8_rt, 3, 3, 6);
+// bound: Encoder::string / Decoder::string on the empty string after K symbolic bools (non-empty strings: outside, see file header)
+fam!(c01_t_string0_a2, string_rt, 2, 0, 4);
+// bound: encode_list_with / decode_list_with over u8, L in 0..=2 symbolic elements (unwind 4)
+fam!(c01_q_list2_a5, list_rt, 5, 2, 4);
+fam!(c01_t_list0_a0, list_rt, 0, 0, 4);
+fam!(c01_t_list1_a2, list_rt, 2, 1, 4);
+fam!(c01_t_list2_a7, list_rt, 7, 2, 4);
+fam!(c01_t_list1_a4, list_rt, 4, 1, 4);
+// bound: byte strings of concrete length at the 255-byte block boundary (2 and 3 blocks), symbolic content
+fam!(c01_t_bytes255_a0, bytes_rt, 0, 255, 9);
+fam!(c01_t_bytes256_a3, bytes_rt, 3, 256, 6);
+fam!(c01_t_bytes511_a0, bytes_rt, 0, 511, 9);
+
+/// flat::encode(&v) -> flat::decode::<T>() (value + filler, the public top-level entry points)
+macro_rules! top {
+    ($name:ident, $t:ty, $unw:expr) => {
+        #[kani::proof]
+        #[kani::unwind($unw)]
+        #[kani::stub(std::fmt::format, crate::stubs::fmt_format_stub)]
+        fn $name() {
+            let v: $t = kani::any();
+            let buf = pallas_codec::flat::encode(&v).unwrap();
+            let r = pallas_codec::flat::decode::<$t>(&buf);
+            match &r {
+                Ok(got) => assert!(*got == v, "flat::decode(flat::encode(v)) == v"),
+                Err(_) => assert!(false, "flat::decode accepts flat::encode's output"),
+            }
+            kani::cover!(true, "reached");
+            core::mem::forget(r);
+            core::mem::forget(buf);
+        }
+    };
+}
+// bound: flat::encode / flat::decode::<T> on every value of T (value at alignment 0 + filler; unwind 9 = filler loop, 11 for 64-bit words)
+top!(c01_q_top_bool, bool, 9);
+top!(c01_q_top_u8, u8, 9);
+top!(c01_q_top_char, char, 9);
+top!(c01_t_top_usize, usize, 11);
+top!(c01_t_top_isize, isize, 11);
+
+/// bound: flat::encode / flat::decode::<Vec<u8>> on 2 symbolic bytes (unwind 9)
+#[kani::proof]
+#[kani::unwind(9)]
+#[kani::stub(std::fmt::format, crate::stubs::fmt_format_stub)]
+fn c01_t_top_vec2() {
+    let p: [u8; 2] = kani::any();
+    let v: Vec<u8> = p.to_vec();
+    let buf = pallas_codec::flat::encode(&v).unwrap();
+    let r = pallas_codec::flat::decode::<Vec<u8>>(&buf);
+    match &r {
+        Ok(got) => assert!(got.len() == 2 && got[0] == p[0] && got[1] == p[1], "flat::decode(flat::encode(v)) == v"),
+        Err(_) => assert!(false, "flat::decode accepts flat::encode's output"),
+    }
+    kani::cover!(true, "reached");
+    core::mem::forget(r);
+    core::mem::forget(buf);
+    core::mem::forget(v);
+}
+
+// ---- ordered pairs of values in one buffer (thorough) ----
+trait Op {
+    fn any() -> Self;
+    fn put(&self, e: &mut Encoder);
+    fn check(&self, d: &mut Decoder);
+}
+struct OBool(bool);
+struct OU8(u8);
+struct OWord(usize);
+struct OBytes([u8; 2]);
+impl Op for OBool {
+    fn any() -> Self {
+        OBool(kani::any())
+    }
+    fn put(&self, e: &mut Encoder) {
+        e.bool(self.0);
+    }
+    fn check(&self, d: &mut Decoder) {
+        assert!(d.bool().unwrap() == self.0, "bool round-trips inside a pair");
+    }
+}
+impl Op for OU8 {
+    fn any() -> Self {
+        OU8(kani::any())
+    }
+    fn put(&self, e: &mut Encoder) {
+        e.u8(self.0).unwrap();
+    }
+    fn check(&self, d: &mut Decoder) {
+        assert!(d.u8().unwrap() == self.0, "u8 round-trips inside a pair");
+    }
+}
+impl Op for OWord {
+    fn any() -> Self {
+        OWord(kani::any())
+    }
+    fn put(&self, e: &mut Encoder) {
+        e.word(self.0);
+    }
+    fn check(&self, d: &mut Decoder) {
+        assert!(d.word().unwrap() == self.0, "word round-trips inside a pair");
+    }
+}
+impl Op for OBytes {
+    /// 2 symbolic bytes (concrete length: symbolic lengths give no verdict)
+    fn any() -> Self {
+        OBytes(kani::any())
+    }
+    fn put(&self, e: &mut Encoder) {
+        e.bytes(&self.0).unwrap();
+    }
+    fn check(&self, d: &mut Decoder) {
+        let got = d.bytes().unwrap();
+        assert!(got.len() == 2, "bytes length round-trips inside a pair");
+        assert!(got[0] == self.0[0] && got[1] == self.0[1], "bytes content round-trips inside a pair");
+        core::mem::forget(got);
+    }
+}
+fn pair_rt<const K: usize, A: Op, B: Op>() {
+    let pre: u8 = kani::any();
+    let a = A::any();
+    let b = B::any();
+    let t: u8 = kani::any();
+    let mut e = Encoder::new();
+    put_prefix::<K>(&mut e, pre);
+    a.put(&mut e);
+    b.put(&mut e);
+    let buf = finish(e, t);
+    let mut d = Decoder::new(&buf);
+    get_prefix::<K>(&mut d, pre);
+    a.check(&mut d);
+    b.check(&mut d);
+    check_end(d, t, buf.len());
+    kani::cover!(true, "reached");
+    core::mem::forget(buf);
+}
+macro_rules! pair {
+    ($name:ident, $k:expr, $a:ty, $b:ty, $unw:expr) => {
+        #[kani::proof]
+        #[kani::unwind($unw)]
+        #[kani::stub(std::fmt::format, crate::stubs::fmt_format_stub)]
+        fn $name() {
+            pair_rt::<$k, $a, $b>();
+        }
+    };
+}
+// bound: ordered pairs over {bool, u8, word (full range), bytes (2 symbolic bytes)} after K in {3, 6} symbolic bools, then the trailing u8
+pair!(c01_t_pair_bool_bool_a3, 3, OBool, OBool, 4);
+pair!(c01_t_pair_bool_u8_a6, 6, OBool, OU8, 4);
+pair!(c01_t_pair_bool_word_a3, 3, OBool, OWord, 11);
+pair!(c01_t_pair_bool_bytes_a6, 6, OBool, OBytes, 4);
+pair!(c01_t_pair_u8_bool_a3, 3, OU8, OBool, 4);
+pair!(c01_t_pair_u8_u8_a6, 6, OU8, OU8, 4);
+pair!(c01_t_pair_u8_word_a6, 6, OU8, OWord, 11);
+pair!(c01_t_pair_u8_bytes_a3, 3, OU8, OBytes, 6);
+pair!(c01_t_pair_word_bool_a6, 6, OWord, OBool, 11);
+pair!(c01_t_pair_word_u8_a3, 3, OWord, OU8, 11);
+pair!(c01_t_pair_word_word_a3, 3, OWord, OWord, 11);
+pair!(c01_t_pair_word_bytes_a6, 6, OWord, OBytes, 11);
+pair!(c01_t_pair_bytes_bool_a3, 3, OBytes, OBool, 6);
+pair!(c01_t_pair_bytes_u8_a6, 6, OBytes, OU8, 4);
+pair!(c01_t_pair_bytes_word_a3, 3, OBytes, OWord, 11);
+pair!(c01_t_pair_bytes_bytes_a6, 6, OBytes, OBytes, 9);
+
 
 /// vacuity twin: must come back FAILED
 #[kani::proof]
-#[kani::unwind(12)]
+#[kani::unwind(11)]
 fn c01_v_twin() {
     let v: usize = kani::any();
     let mut e = Encoder::new();
